@@ -412,9 +412,11 @@ fn build(tier: Tier) -> Vec<Scenario> {
             let mut s = program_scenario("C05/job", &p, &[1, 2, 3, 4], SrcKind::Iter, &cfg, if tier == Tier::Quick { 1 } else { 2 }, &ORDERS3[..1], String::new());
             s.body = crate::props::common::program_body_probed(p.clone(), vec![1, 2, 3, 4], SrcKind::Iter, cfg.clone());
             let inner = s.check.clone();
+            let p2 = p.clone();
             s.check = Arc::new(move |r| {
                 let h = inner(r)?;
-                crate::props::common::probe_grammar(&r.log)?;
+                let has_loop = p2.iter().any(|i| matches!(i, Replay(..) | Iterate(..)));
+                crate::props::common::probe_grammar_n(&r.log, if has_loop { None } else { Some(1) })?;
                 Ok(h)
             });
             out.push(s);
